@@ -23,6 +23,14 @@ COUNTERS = {"StageResult": {"completed": "x.status == StageStatus.COMPLETED"}}
 
 LOOP = "for (i, stage) in enumerate(self._stages)"
 
+# the constructor stores the configuration it is given: the halting / clamping clauses of run() speak about self.halt_on_failure and
+# self.max_amplification, which must BE the caller's settings (whatever the declared mode)
+contract(T + ".__init__", "C19", is_init=True, raises=[],
+         params={"on_stage_complete": "opt:callback", "on_cascade_complete": "opt:callback"},
+         ensures={"configuration-is-stored-as-given": "self.halt_on_failure == halt_on_failure and self.max_amplification == max_amplification and "
+                                                      "self.mode == mode and self.name == name and self.silent == silent",
+                  "starts-empty": "len(self._stages) == 0"})
+
 contract(T + ".run", "C19",
          callbacks=CB, counters=COUNTERS,
          options={"div": "uninterpreted"},
